@@ -111,3 +111,87 @@ def feat_text(f):
     if isinstance(f, UnaryFeature):
         return '' if f.value is None else f.value
     return ','.join(f'{k}={v}' for k, v in (f.kv1, f.kv2, f.kv3))
+
+
+# ---------------------------------------------------------------- deep values and single-point neighbourhoods
+def rebuild(c):
+    """an equal value built from scratch through the constructors"""
+    if isinstance(c, Functor):
+        return Functor(rebuild(c.left), c.slash, rebuild(c.right))
+    f = c.feature
+    f2 = UnaryFeature(f.value) if isinstance(f, UnaryFeature) else TernaryFeature(tuple(f.kv1), tuple(f.kv2), tuple(f.kv3))
+    return Atom(c.base, f2)
+
+
+def neighbours(c):
+    """every value that differs from c at exactly one point: one slash replaced, one atom's base replaced, or one atom's feature
+    replaced / removed / (ternary) one slot value replaced. Built from scratch; none of them is equal to c."""
+    out = []
+
+    def rec(x, wrap):
+        if isinstance(x, Functor):
+            for s in '/\\|':
+                if s != x.slash:
+                    out.append(wrap(Functor(rebuild(x.left), s, rebuild(x.right))))
+            rec(x.left, lambda l, x=x, wrap=wrap: wrap(Functor(l, x.slash, rebuild(x.right))))
+            rec(x.right, lambda r, x=x, wrap=wrap: wrap(Functor(rebuild(x.left), x.slash, r)))
+            return
+        f = x.feature
+        for b in ('S', 'NP', 'N', 'PP'):
+            if b != x.base:
+                out.append(wrap(Atom(b, rebuild(x).feature)))
+                break
+        if isinstance(f, UnaryFeature):
+            for v in (None, 'dcl', 'zz'):
+                if v != f.value:
+                    out.append(wrap(Atom(x.base, UnaryFeature(v))))
+        elif isinstance(f, TernaryFeature):
+            kvs = [tuple(f.kv1), tuple(f.kv2), tuple(f.kv3)]
+            for i in range(3):
+                alt = list(kvs)
+                alt[i] = (kvs[i][0], 'zz')
+                out.append(wrap(Atom(x.base, TernaryFeature(*alt))))
+            out.append(wrap(Atom(x.base, UnaryFeature(None))))
+    rec(c, lambda v: v)
+    return out
+
+
+@functools.lru_cache(None)
+def deep_pool(lang, everything=False):
+    """values with 4..12 atoms: left spines, right spines, zig-zags and balanced shapes over a few atoms of the language, plus every
+    shipped category string of the language with at least 4 atoms (inventories, unary tables, dictionary; seen rules with everything=True)"""
+    from mc import data
+    if lang == 'en':
+        atoms = [P(a) for a in ('S[dcl]', 'NP', 'S[b]', 'N', 'PP', 'NP[nb]', 'S[X]')]
+    else:
+        atoms = [P(a) for a in ('S[mod=nm,form=base,fin=f]', 'NP[case=ga,mod=nm,fin=f]', 'NP[case=o,mod=nm,fin=f]', 'S[mod=X1,form=X2,fin=X3]', 'NP[case=nc,mod=nm,fin=f]')]
+    out = []
+    for n in (4, 5, 6, 8, 12):
+        seq = [atoms[i % len(atoms)] for i in range(n)]
+        sl = ['/', '\\', '\\', '/', '|']
+        left = seq[0]
+        for i, a in enumerate(seq[1:]):
+            left = Functor(left, sl[i % 5], a)
+        right = seq[-1]
+        for i, a in enumerate(reversed(seq[:-1])):
+            right = Functor(a, sl[i % 5], right)
+        zig = seq[0]
+        for i, a in enumerate(seq[1:]):
+            zig = Functor(zig, sl[i % 5], a) if i % 2 == 0 else Functor(a, sl[i % 5], zig)
+
+        def bal(xs, d=0):
+            if len(xs) == 1:
+                return xs[0]
+            h = len(xs) // 2
+            return Functor(bal(xs[:h], d + 1), sl[d % 5], bal(xs[h:], d + 1))
+        out += [left, right, zig, bal(seq)]
+    want = ('ja',) if lang == 'ja' else ('en', 'en_rebank')
+    seen = {key(c) for c in out}
+    for src, s in data.all_category_strings():
+        kind, v = src.split('.', 1)
+        if v in want and (everything or kind != 'seen_rules'):
+            c = P(s)
+            if size(c) >= 4 and key(c) not in seen:
+                seen.add(key(c))
+                out.append(c)
+    return out
